@@ -220,7 +220,7 @@ def render_pdf(doc, *, images=None, opts=None, **kw) -> bytes:
                 if opts.get("share_images"):
                     d["share_key"] = f"img{b['id']}"
                 imgs.append(d)
-        pages.append({"lines": lines, "images": imgs, "no_contents": bool(opts.get("bare_blank_pages"))})
+        pages.append({"lines": lines, "images": imgs, "no_contents": bool(opts.get("bare_blank_pages")), "xobject_dict_reversed": bool(opts.get("xobject_dict_reversed"))})
     p = doc.get("props") or {}
     info = {k2: p[k1] for k1, k2 in (("title", "Title"), ("author", "Author"), ("subject", "Subject"), ("keywords", "Keywords")) if p.get(k1) is not None}
     return pdfw.write_pdf(pages, info=info or None, compress=bool(opts.get("compress")))
